@@ -19,7 +19,8 @@ def api_jobs(tier):
 
 
 def write_api_jobs(tier):
-    return [dict(j, id=j["id"].replace("O4.", "O3.write-"), conf=dict(j["conf"], **{"for": "C06"}), _obligation="O3") for j in _c20.api_jobs(tier)]
+    return [{"id": f"O4.write-conflict.second-{nm}", "func": "VerifH_C06_WriteConflict", "conf": {"second": i, "branchable": 0, "faults": 0, "dag": "", "orders": "all", "shortid": 0, "for": "C06"},
+             "_obligation": "O4", "_covers": ["committed"], "unwind": 120} for i, nm in enumerate(("updates-another-field", "updates-the-same-field", "deletes"))] + [dict(j, id=j["id"].replace("O4.", "O3.write-"), conf=dict(j["conf"], **{"for": "C06"}), _obligation="O3") for j in _c20.api_jobs(tier)]
 
 
 PROPERTY = {
@@ -30,6 +31,6 @@ PROPERTY = {
     "bounds": {"API level (O2)": "collection.GetAllDocIDs / Exists / Get inside one explicit transaction of a real db.NewTxn over the transactional store model; three documents: committed before the transaction started / written by the transaction / committed by someone else afterwards (each present or not: inputs); the scan goroutine of GetAllDocIDs runs under every schedule with 1 preemption",
                "transactions": 2, "schedule": "4 (thorough 5) steps, each a write / read / commit / discard of one of the two transactions", "store accessors": "two per schedule out of data, head, system, peer, root (pairs data-head, system-peer, root-data, head-peer)", "keys": "one key, the same bytes under both accessors", "values": "one symbolic byte"},
     "assumptions": ["the store is the kvtxn model of the corekv contract: snapshot reads, own writes, read-write conflict detection at commit, nothing applied by a conflicting or discarded transaction"],
-    "outside_claim": ["the isolation mechanism itself (badger, corekv/memory): not code of this repository", "the rest of the API level: writing collection operations, requests and index maintenance inside explicit transactions (GraphQL, planner); conflict detection between two writers of one document (decided by which keys the write path reads: store-level)",
+    "outside_claim": ["the isolation mechanism itself (badger, corekv/memory): not code of this repository", "the rest of the API level: requests and index maintenance inside explicit transactions (GraphQL, planner), filtered mutations, schema and index changes",
                       "block and encryption stores (content-addressed wrappers over the same prefixes)", "thread interleavings inside one operation"],
 }
